@@ -6,6 +6,7 @@ import B3.Proofs.Arith
 import B3.Proofs.Xof
 import B3.Proofs.Final
 import B3.Proofs.GenK
+import B3.Proofs.Regions
 namespace B3.Props.C06
 open B3
 
@@ -87,5 +88,14 @@ theorem c_init_derive_key_eq (sd j : Nat) (hsd : sd = 2 ^ j) (ctx : List UInt8) 
   simp only [Nat.mul_zero, Nat.add_zero, List.drop_zero] at hs
   rw [hs]
   rfl
+
+/-- the subtree sizing of `blake3_hasher_update_base` (regenerated from c/blake3.c in wrapping unsigned
+arithmetic) is the same function as the Rust one and the model's, for every input length and every
+chunk counter whose byte count fits in 64 bits -/
+theorem c_update_subtree_len_is_model (n cc : Nat) (h1 : 0 < n) (h2 : n < 2 ^ 64) (h3 : cc * 1024 < 2 ^ 64) :
+    Gen.C.update_subtree_len n cc = .ok (Ar.shrink (Ar.lp2le n) (cc * 2 ^ 10)) ∧
+    (n < 2 ^ 63 → Gen.C.update_subtree_len n cc = Gen.Rs.update_subtree_len n cc) :=
+  ⟨Proofs.c_update_subtree_len_eq n cc h1 h2 h3,
+   fun h => by rw [Proofs.c_update_subtree_len_eq n cc h1 h2 h3, Proofs.rs_update_subtree_len_eq n cc h1 h h3]⟩
 
 end B3.Props.C06
